@@ -67,6 +67,7 @@ func genC11(c *ctx) {
 	p.DepBodies, p.Ext = true, true
 	p.HalfTyped = 0
 	p.ExprDepth = 2 + c.n(3)
+	p.ClonePath = c.chance(0.5)
 	c.makeWorld(p)
 	max := 60
 	if c.thorough() {
@@ -109,6 +110,27 @@ func init() {
 
 func genC08(c *ctx) {
 	c.modelProfile()
+	c.add(&h.Event{K: "quiesce"})
+	c.add(&h.Event{K: "check", Check: &h.Check{Key: c.key()}})
+}
+
+func init() {
+	generators["C19"] = genC19
+}
+
+func genC19(c *ctx) {
+	p := c.baseProfile()
+	p.JSONTwin = true
+	p.HalfTyped = 0
+	p.Layout = false
+	p.Odd = false
+	p.DepBodies = c.chance(0.7)
+	p.Ext = c.chance(0.5)
+	p.Terraformy = c.chance(0.6)
+	p.Violations = []float64{0, 0.05}[c.n(2)]
+	p.ManyTargets, p.BigBody = 0, false
+	p.Paths = 1 + c.n(2)
+	c.makeWorld(p)
 	c.add(&h.Event{K: "quiesce"})
 	c.add(&h.Event{K: "check", Check: &h.Check{Key: c.key()}})
 }
